@@ -4,6 +4,7 @@ import (
 	"fmt"
 	"math"
 	"sort"
+	"time"
 
 	"github.com/sahandsafizadeh/qeep/component/initializers"
 	"github.com/sahandsafizadeh/qeep/component/optimizers"
@@ -605,6 +606,25 @@ func streamFallback(calls []initCall, got []*ref.T, at int, msg string) core.Ver
 	if lambda := float64(ndraws) * float64(ndraws) / (1 << 33); float64(dups) > 3+10*lambda {
 		return core.Fail("%s; and %d of %d drawn values repeat an earlier one (first: %v): draws are reused / not fresh", msg, dups, ndraws, firstDup)
 	}
+	// The sampling part below costs thousands of library calls per case. For a library whose random constructors
+	// do not follow the gonum stream at all, EVERY one of the millions of enumerated sequences ends up here; the
+	// large-sample test of one call configuration is therefore done once per worker process (memo), and the
+	// cross-call pooling only while the worker's fallback budget lasts - afterwards the oracle abstains for the
+	// remaining sequences (reported: counter + not exhaustive). Found with the property-preserving bundle B10: a
+	// worker of this check ran into its 20-minute limit and the check was reported broken (DESIGN 9.11).
+	t0 := time.Now()
+	defer func() { c18FallbackSpent += time.Since(t0) }()
+	memoKey := ic.String()
+	if r, ok := c18MomentMemo[memoKey]; ok {
+		if r != "" {
+			return core.Fail("%s; and %s", msg, r)
+		}
+		if c18FallbackSpent > c18FallbackBudget {
+			c18FallbackSkipped++
+			return core.Verdict{OK: true, Skip: true, Detail: "stream oracle abstains (fallback budget of this worker spent): " + msg}
+		}
+		return c18CrossCall(calls, got, at, msg)
+	}
 	// scale: a large sample of the same call must have moments within 6 sigma
 	// (the SAME call, shape included, is repeated until 4096 elements are drawn:
 	// a scale that depends on the requested shape must not escape)
@@ -634,8 +654,29 @@ func streamFallback(calls []initCall, got []*ref.T, at int, msg string) core.Ver
 		if m2 := distStats(kind, a, b, x2[:4096]); m2 == "" {
 			return core.Verdict{OK: true, Skip: true, Detail: "stream oracle abstains (a statistical excursion did not repeat): " + msg}
 		}
+		c18MomentMemo[memoKey] = m
 		return core.Fail("%s; and %s", msg, m)
 	}
+	c18MomentMemo[memoKey] = ""
+	return c18CrossCall(calls, got, at, msg)
+}
+
+var (
+	c18MomentMemo      = map[string]string{}
+	c18FallbackSpent   time.Duration
+	c18FallbackBudget  = 90 * time.Second
+	c18FallbackSkipped int64
+)
+
+// c18CrossCall: the cross-call part of the fallback (see streamFallback).
+func c18CrossCall(calls []initCall, got []*ref.T, at int, msg string) core.Verdict {
+	ic := calls[at]
+	kind, a, b := ic.dist()
+	if c18FallbackSpent > c18FallbackBudget {
+		c18FallbackSkipped++
+		return core.Verdict{OK: true, Skip: true, Detail: "stream oracle abstains (fallback budget of this worker spent): " + msg}
+	}
+	_ = ic
 	// independence ACROSS calls: replay the whole sequence many times and pool, for the call in question, its
 	// first and its last element - something left over from the previous call (a spare variate, a cached
 	// draw) lands exactly there, once per replay, and is invisible in a large sample of one repeated call
@@ -675,6 +716,16 @@ func streamFallback(calls []initCall, got []*ref.T, at int, msg string) core.Ver
 }
 
 func checkC18(c *core.Ctx) {
+	if c.Deep() {
+		c18FallbackBudget = 8 * time.Minute
+	}
+	defer func() {
+		if c18FallbackSkipped > 0 {
+			c.P.Capped = true
+			c.P.CapNote = fmt.Sprintf("the library's random constructors do not follow the seeded gonum stream; the sampling fallback's budget (%v per worker) was spent and the stream oracle abstained for %d further call sequences (support and duplicate checks still applied)", c18FallbackBudget, c18FallbackSkipped)
+			c.Count("sequences_fallback_budget_spent", c18FallbackSkipped)
+		}
+	}()
 	alpha := c18Alphabet(c.Thorough())
 	seed := uint64(c.Seed)*7919 + 17
 	// single calls: full alphabet
